@@ -288,9 +288,9 @@ fn base_case<Rm: ModeTag, const B: Word, const NB: Word>(m: &mut Mon, r: &mut Rn
     let f = FBig::<Rm, B>::from_parts(ibig_of_int(&s), e as isize).with_precision(p).value();
     // the documented target precision: NewB^p' <= B^p
     let bp = Pow::pow(&BigUint::from(base), p);
-    if bp < BigUint::from(nbase) {
-        return; // target precision would be 0 (unlimited)
-    }
+    // when even one digit of the new base holds more than the source precision, the target precision is 1
+    // (never 0, which would mean unlimited)
+    let tiny = bp < BigUint::from(nbase);
     let explicit = r.chance(1, 3);
     let pe = 1 + r.usize(40);
     let ecls = if e.abs() <= 38 { "small_exp" } else { "large_exp" };
@@ -306,7 +306,7 @@ fn base_case<Rm: ModeTag, const B: Word, const NB: Word>(m: &mut Mon, r: &mut Rn
         } else {
             // NewB^p' <= B^p (and p' is not wastefully small: NewB^(p'+2) > B^p)
             ensure!(pp >= 1, "precision", "with_base chose precision {}", pp);
-            ensure!(Pow::pow(&BigUint::from(nbase), pp) <= bp, "precision", "with_base chose precision {} but {}^{} > {}^{}", pp, nbase, pp, base, p);
+            ensure!(if tiny { pp == 1 } else { Pow::pow(&BigUint::from(nbase), pp) <= bp }, "precision", "with_base chose precision {} but {}^{} > {}^{}", pp, nbase, pp, base, p);
             ensure!(Pow::pow(&BigUint::from(nbase), pp + 2) > bp, "precision", "with_base chose precision {} although {}^{} <= {}^{}", pp, nbase, pp + 2, base, p);
         }
         let rq = q_of_repr(v.repr());
